@@ -890,6 +890,60 @@ def case_eigen_batch(case):
     return {"v": v[:4], "t": t, "o": repr((n, lam, shape, members, has)), "nt": True}
 
 
+ROT_ANGLES = [0.3, 1.1, 2.0, -0.7, 2.9]
+
+
+def _rot_member(n, qi, ai):
+    """Q^-1 R Q with R a rotation by ROT_ANGLES[ai] in the first two coordinates (identity elsewhere) and
+    Q from the integer unimodular family: a REAL matrix whose eigenvalues are e^{+-i theta} and 1 (n - 2 times)."""
+    Q = np.array(L.unimodular_family(n)[qi % len(L.unimodular_family(n))], dtype=float)
+    Qi = np.array(L.unimodular_inverse(L.unimodular_family(n)[qi % len(L.unimodular_family(n))]), dtype=float)
+    th = ROT_ANGLES[ai % len(ROT_ANGLES)]
+    R = np.identity(n)
+    R[:2, :2] = [[np.cos(th), -np.sin(th)], [np.sin(th), np.cos(th)]]
+    return Qi @ R @ Q, th
+
+
+@_quiet
+def case_eigen_rotation(case):
+    """Real transformations with non-real eigenvalues, single and composite: every vector reported by
+    eigenvector() - real or complex - must be mapped to a multiple of itself; eigenvector(1.0) (n >= 3)
+    must be fixed."""
+    from geometry_tools import projective
+    n, shape = case["n"], tuple(case["shape"])
+    cnt = int(np.prod(shape)) if shape else 1
+    mem = [_rot_member(n, case["q0"] + j, case["a0"] + 2 * j) for j in range(cnt)]
+    arr = np.stack([m[0] for m in mem]).reshape(shape + (n, n))
+    v, t = [], 0
+    for oname, T in (("rows", projective.Transformation(arr.copy())),
+                     ("columns", projective.Transformation(np.swapaxes(arr, -1, -2).copy(), column_vectors=True))):
+        for lam in ([None] if n == 2 else [None, 1.0]):
+            vec = np.asarray((T.eigenvector() if lam is None else T.eigenvector(lam)).proj_data)
+            t += 1
+            where = "%s/%s/%s" % ("any" if lam is None else "lambda=1", oname, "single" if not shape else "composite")
+            if vec.shape != shape + (n,):
+                v.append(_V("eigenvector/rotation/shape/" + where, "composite shape %r: data shape %r" % (shape, vec.shape)))
+                continue
+            vf = vec.reshape((cnt, n))
+            for j in range(cnt):
+                M, th = mem[j]
+                u = vf[j]
+                if not np.all(np.isfinite(u)) or float(np.max(np.abs(u))) < 1e-6:
+                    v.append(_V("eigenvector/rotation/degenerate/" + where, "member %d (angle %r): returned %r" % (j, th, u.tolist())))
+                    break
+                u = u / np.max(np.abs(u))
+                img = u @ M
+                mu = complex((img @ np.conj(u)) / (u @ np.conj(u)))
+                res = float(np.max(np.abs(img - mu * u)))
+                ok_mu = min(abs(mu - e) for e in (np.exp(1j * th), np.exp(-1j * th), 1.0)) <= 1e-8 if lam is None else abs(mu - 1.0) <= 1e-8
+                if not (res <= 1e-9 * (1.0 + float(np.max(np.abs(M)))) and ok_mu):
+                    v.append(_V("eigenvector/rotation/not-an-eigenvector/" + where,
+                                "member %d (rotation by %r conjugated by unimodular #%d) of composite %r: v = %r, v M - mu v = %.3g (mu = %r)"
+                                % (j, th, case["q0"] + j, shape, u.tolist(), res, mu)))
+                    break
+    return {"v": v[:4], "t": t, "o": repr((n, shape, case["q0"], case["a0"])), "nt": True}
+
+
 # ------------------------------------------------------------------------------------------
 # histories of one Transformation object: eigen-data answer for the CURRENT matrix (mc/diffhist.py)
 # ------------------------------------------------------------------------------------------
@@ -1401,6 +1455,12 @@ def run(ctx):
                          "oracle": "defining equations on the current proj_data (M^-1 T M diagonal with the model's eigenvalues, v T = lambda v, T^-1 T = 1), "
                                    "also required of a fresh Transformation built from a copy of the data; eigenvector(lambda) and inv() compared with the fresh "
                                    "object's up to projective scale (mc/diffhist.py)"}, chunk=32)
+    rot_cases = [{"n": n, "shape": sh, "q0": q0, "a0": a0} for n in (2, 3, 4, 5) for sh in ([], [1], [2], [3], [2, 2])
+                 for q0 in range(len(L.unimodular_family(n))) for a0 in range(len(ROT_ANGLES))]
+    ctx.product("eigenvector-real-matrices-complex-spectrum", "checks.c16:case_eigen_rotation", rot_cases,
+                domains={"n": [2, 3, 4, 5], "shapes": [[], [1], [2], [3], [2, 2]], "members": "Q^-1 R(theta) Q, theta in %r (consecutive members: every second angle), Q from the unimodular family" % ROT_ANGLES,
+                         "calls": ["eigenvector()", "eigenvector(1.0) for n >= 3"], "layouts": ["row matrices", "column_vectors=True"],
+                         "oracle": "v M = mu v with mu in {e^(i theta), e^(-i theta), 1} over the complex numbers"}, chunk=8)
     ctx.product("eigenvector-diagonalize", "checks.c16:case_eigen", eig_cases,
                 domains={"eigenvalue alphabet": vals, "n": "2..6", "conjugators": "unimodular family"}, chunk=32)
     ctx.product("eigenvector-diagonalize-batch", "checks.c16:case_eigen_batch", eig_batch,
